@@ -64,7 +64,8 @@ SPEC = dict(
                  "numbers are finite, exactly representable in their wire type, of magnitude <= 2^53 for integers; negative zero, NaN and infinities are not generated",
                  "jsoniter (JSON /1/events) yields the float64 nearest to the literal, which for the generated literals is its exact value (checked by the differential on every literal); fastjson's parser is an external function",
                  "every field a sampler reads is one of the dataset's sampling key fields at the receiving node (production: the same sampler configuration on all nodes), hence memoized there before forwarding",
-                 "field names are not meta.* and not the configured trace-id / parent-id fields (excluded by the property); CheckNestedFields = false",
+                 "field names are not meta.* and not the configured trace-id / parent-id fields (excluded by the property)",
+                 "CheckNestedFields is off in every case (the rules model's nested fallback, Rules.Trace.nested / maps, keeps its defaults: values here are scalars)",
                  "msgpack values are scalars (maps, arrays, ext, time are C20's subject); OTLP attributes are int / double / string / bool",
                  "the downstream dynamic sampler's rate/keep is taken as observed (function of key and span count); its key is predicted by the model",
                  "peer forwarding is exercised through the real batchedEvent.MarshalMsg / Payload.MarshalMsg and the peer router's /1/batch handler, not over HTTP"],
